@@ -393,7 +393,7 @@ fn run_tamper(plan: &Plan, lib: &dyn Lib, rec: &mut Rec) {
             let one = refimpl::scalar_from_u64(1);
             let zero = refimpl::scalar_from_u64(0);
             let set = [zero, one, -one, one + one, k];
-            let mut pick = |x: &mut Xo, honest: refimpl::RefScalar| if x.chance(1, 2) { honest } else { set[x.below(5) as usize] };
+            let pick = |x: &mut Xo, honest: refimpl::RefScalar| if x.chance(1, 2) { honest } else { set[x.below(5) as usize] };
             let (al, be, ga, de) = (pick(&mut x, one), pick(&mut x, zero), pick(&mut x, one), pick(&mut x, zero));
             let pk2 = pkp.mul(&al).add(&pkp.gen_like().mul(&be));
             let bref = Bls::with_tags(sig_grp(g), draft.clone());
